@@ -106,7 +106,7 @@ def _compile_location_step(case, step, st, p, prev, root):
         step["entry"] = {"style": "script", "script_path": os.path.join(root, "pipeline_script.py"), "script_text": text}
     else:
         cells = _cells_of(p)
-        if prev is not None:
+        if prev is not None and not st.get("redefine_all"):
             old = _cells_of(prev)
             cells = [c for c in cells if c not in old]  # only the redefinitions, in later cells
         step["how"] = "cells"
